@@ -14,7 +14,7 @@ META = {
     "technique": "constructor/Validate/parser lifecycle as predicates of the TLA+ trace specification (J_Build.tla); TLC-computed valid and single-defect argument tuples replayed into constructors; outcomes of the three layers validated by TLC",
     "text": ("The three layers are exercised on the same TLC-generated tuples and their outcomes compared as implications (constructor ok => "
              "Validate ok => serialise, reparse with empty remainder, same bytes; documented defect => constructor rejects). Shape space as in "
-             "C02 direction 2; signing constructors are covered under C06. Three genuine disagreements that the pinned suite prevents repairing "
+             "C02 direction 2; the signing constructors are driven with the C06 tuples plus EncryptedLeaseSet single-defect variants. Three genuine disagreements that the pinned suite prevents repairing "
              "are listed as known findings and keyed by constructor + defect class."),
     "note": common.TRUSTED,
 }
@@ -25,5 +25,6 @@ def check(run):
     common.mc_structs(run, kinds=("cert", "identity"))
     for fam in BUILD:
         run.gen("Gen_Build", consts={"Fam": fam}, tag="Gen_Build_" + fam)
+    run.gen("Gen_C06")      # the signing constructors (RouterInfo, LeaseSet, LeaseSet2, EncryptedLeaseSet, OfflineSignature) incl. single-defect variants
     run.replay_and_judge()
     return vlib.finish(run, "model_checking", RULE, ASSUME)
